@@ -4,9 +4,10 @@
   executable.
 -/
 import CklVerif.Driver.Basic
+import CklVerif.Driver.SeqDate
 open Ckl
 
-def handlers : List (Sx → Option Sx) := [handleValue]
+def handlers : List (Sx → Option Sx) := [handleValue, handleSeqDate]
 
 def dispatch (req : Sx) : Sx :=
   match handlers.findSome? (fun h => h req) with
